@@ -98,6 +98,7 @@ func genC09(seed uint64, tier string) *plan.Plan {
 	}
 	defs := [][]int64{t0, t1, t2}
 	nextSlot := int64(3)
+	rs := rand.New(rand.NewPCG(seed, 0xc095)) // a stream of its own: older plans keep their other ops
 	for i := 0; i < n; i++ {
 		if r.IntN(10) == 0 {
 			// An already announced id is announced again with another field count, and that send fails
@@ -151,6 +152,10 @@ func genC09(seed uint64, tier string) *plan.Plan {
 				plan.Op{K: "data", A: nextSlot, B: 1, C: int64(r.Uint64() >> 1), D: 0})
 			nextSlot++
 			continue
+		}
+		if rs.IntN(10) == 0 {
+			// the id in the set header and the id the records were added under differ
+			pl.Ops = append(pl.Ops, plan.Op{K: "datasetid", A: int64(rs.IntN(3)), B: int64(rs.IntN(6)), C: int64(rs.Uint64() >> 1)})
 		}
 		switch r.IntN(9) {
 		case 0:
